@@ -26,12 +26,14 @@ def fl(x):
 
 
 def drop_case_files(shards):
-    """Case files carry the process id in their name (so concurrent runs do not collide); they are removed after evaluation."""
+    """vf.coq.coq_eval gives every case file a per-process name (so concurrent runs do not collide); this check writes ~100 MB of
+    them per run, so they are removed after evaluation (a failing case is reproducible from its replay file)."""
     for name, _ in shards:
-        try:
-            os.remove(os.path.join(env.BUILD, 'cases', name + '.v'))
-        except OSError:
-            pass
+        for cand in (name + '.v', f'{name}_p{os.getpid()}.v'):
+            try:
+                os.remove(os.path.join(env.BUILD, 'cases', cand))
+            except OSError:
+                pass
 
 
 def tol_of(atol):
@@ -227,7 +229,7 @@ def canon_stream(ctx, cirq, n):
                 '  v3_eqb (fst t) vout && k8_eqb (bk_ph b) ph && meqb k8_eqb (bk_l0 b) l0 && meqb k8_eqb (bk_l1 b) l1\n'
                 '  && meqb k8_eqb (bk_r0 b) r0 && meqb k8_eqb (bk_r1 b) r1.\n'
                 f'Definition cases := [\n{items}].\nEval vm_compute in failing ok cases.\n')
-        shards.append((f'c15_canon_{ctx.seed}_{os.getpid()}_{s0 // SH}', text))
+        shards.append((f'c15_canon_{ctx.seed}_{s0 // SH}', text))
     try:
         outs = coq.coq_eval_many(shards, workers=8)
     finally:
@@ -1227,7 +1229,7 @@ def evaluate(ctx, checks):
         shards = []
         for s0 in range(0, len(exprs), SH):
             text = PRE + 'Definition checks : list bool := [\n' + ';\n'.join(exprs[s0:s0 + SH]) + '].\nEval vm_compute in failing (fun b => b) checks.\n'
-            shards.append((f'c15_{tag}_{ctx.seed}_{os.getpid()}_{s0 // SH}', text))
+            shards.append((f'c15_{tag}_{ctx.seed}_{s0 // SH}', text))
         try:
             outs = coq.coq_eval_many(shards, workers=14)
         finally:
